@@ -169,6 +169,9 @@ pub const WS_LIKE: &[char] = &[
     // byte-wise test takes them for one: seed C18f): U+0420, U+0120, U+2020, U+0409, U+2009, U+040A,
     // U+200A, U+010D, U+200D
     '\u{420}', '\u{120}', '\u{2020}', '\u{409}', '\u{2009}', '\u{40a}', '\u{200a}', '\u{10d}', '\u{200d}',
+    // ASCII / Unicode "whitespace" of Rust's char predicates that XML does not count (seed C18l:
+    // `is_ascii_whitespace` accepts the form feed): U+000C, U+000B, U+001F
+    '\u{c}', '\u{b}', '\u{1f}',
 ];
 
 const SPACE_VALUES: &[&str] = &["preserve", "default", "other", "", "Preserve", " preserve", "preserve ", "PRESERVE"];
